@@ -27,11 +27,13 @@ class XCircuitFrame:
     def requires(self, circuit):
         return wf_expander(self) and wf_circuit(circuit)
 
+    modifies = ("self.macros",)
+
     def ensures(self, circuit, result):
         return type_is(result, Circuit) and implies(len(circuit._native_gates) > 0, same(result._native_gates, circuit._native_gates))
 
     def inv_1(self, circuit, new_circuit, _k):
-        return True
+        return type_is(new_circuit, Circuit) and same(self.macros, new_circuit._macros) and isinstance(self.macros, dict)
 
     def ensures_header(self, circuit, result):
         return (forall_keys(circuit._constants, lambda k: has_key(result._constants, k) and same(dict_lookup(result._constants, k), dict_lookup(circuit._constants, k)))
